@@ -137,6 +137,244 @@ class Req:
         ok = caps.get("private_key", 0) >= L and caps.get("signatures", 0) >= L and caps.get("public_key", -1) >= L - 1
         return (ok, "capacities %s for L=%d (signatures needs L: L-1 key signatures + the message signature)" % (caps, L))
 
+    # ------------------------------------------------------------------ build limits (C14)
+    def limit_tables(self):
+        th = self.F.const_array("constants::TREE_HEIGHTS")
+        wp = self.F.const_array("constants::WINTERNITZ_PARAMETERS")
+        L = self.const("constants::MAX_ALLOWED_HSS_LEVELS")
+        if th is None or wp is None or len(th) != L or len(wp) != L:
+            raise AnchorLost("TREE_HEIGHTS / WINTERNITZ_PARAMETERS tables (%s, %s, L=%s)" % (th, wp, L))
+        return L, list(th), list(wp)
+
+    def decoder(self):
+        c = [f for f in self.F.fns.values() if f.j.get("output", {}).get("path") == flow.RESULT
+             and "ArrayVec<[hss::parameter::HssParameter<" in f.j["output"]["s"] and f.j.get("inputs") and len(f.j["inputs"]) == 1]
+        if len(c) != 1:
+            raise AnchorLost("parameter decoder: %s" % [x.path for x in c])
+        return c[0]
+
+    def limit_predicate(self):
+        """fn(level, height, winternitz) -> bool that is true only if height <= TREE_HEIGHTS[level] and
+        winternitz >= WINTERNITZ_PARAMETERS[level]: every return path that can yield `true` has both comparisons true."""
+        cands = [f for f in self.F.fns.values() if f.j.get("output", {}).get("s") == "bool" and len(f.j.get("inputs", [])) == 3
+                 and any("TREE_HEIGHTS" in str(s) for _, _, s in f.iter_stmts() if s["k"] == "assign")]
+        if len(cands) != 1:
+            raise AnchorLost("limit predicate: %s" % [c.path for c in cands])
+        P = cands[0]
+        # classify comparison locals
+        cmp = {}
+        for b, i, s in P.iter_stmts():
+            if s["k"] != "assign" or s["rv"]["k"] != "binop" or s["rv"]["op"] not in ("Le", "Ge", "Lt", "Gt"):
+                continue
+            rv = s["rv"]
+            da, db = core.operand_deps(P, rv["a"]), core.operand_deps(P, rv["b"])
+            tbl = [str(c.get("s")) for c in db["consts"] if isinstance(c, dict)]
+            if rv["op"] == "Le" and 2 in da["args"] and 1 in db["args"] and any("TREE_HEIGHTS" in t for t in tbl):
+                cmp[s["place"]["local"]] = "H"
+            if rv["op"] == "Ge" and 3 in da["args"] and 1 in db["args"] and any("WINTERNITZ_PARAMETERS" in t for t in tbl):
+                cmp[s["place"]["local"]] = "W"
+        if sorted(cmp.values()) != ["H", "W"]:
+            return P, False, "comparisons found: %s" % sorted(cmp.values())
+        # enumerate paths (loop-free)
+        bad = []
+
+        def val_of_ret(b):
+            for st in reversed(P.blocks[b]["stmts"]):
+                if st["k"] == "assign" and st["place"]["local"] == 0 and not st["place"]["proj"]:
+                    rv = st["rv"]
+                    if rv["k"] == "use":
+                        v = core.op_const_val(rv["op"])
+                        if v is not None:
+                            return ("const", v)
+                        l = core.op_local(rv["op"])
+                        return ("cmp", cmp.get(l))
+                    if rv["k"] == "binop":
+                        return ("cmp", cmp.get(st["place"]["local"]) or cmp_of_rv(rv))
+                    return ("?", None)
+            return None
+
+        def cmp_of_rv(rv):
+            return None
+        # `_0 = Ge(..)` assigns the comparison directly to the return place
+        for b, i, st in P.iter_stmts():
+            if st["k"] == "assign" and st["place"]["local"] == 0 and st["rv"]["k"] == "binop":
+                rv = st["rv"]
+                da, db = core.operand_deps(P, rv["a"]), core.operand_deps(P, rv["b"])
+                tbl = [str(c.get("s")) for c in db["consts"] if isinstance(c, dict)]
+                if rv["op"] == "Ge" and 3 in da["args"] and any("WINTERNITZ_PARAMETERS" in t for t in tbl):
+                    cmp[0] = "W"
+                if rv["op"] == "Le" and 2 in da["args"] and any("TREE_HEIGHTS" in t for t in tbl):
+                    cmp[0] = "H"
+        stack = [(0, frozenset(), None)]
+        seen = 0
+        while stack:
+            b, known, ret = stack.pop()
+            seen += 1
+            if seen > 500:
+                return P, False, "too many paths"
+            blk = P.blocks[b]
+            for st in blk["stmts"]:
+                if st["k"] == "assign" and st["place"]["local"] == 0 and not st["place"]["proj"]:
+                    rv = st["rv"]
+                    if rv["k"] == "use" and core.op_const_val(rv["op"]) is not None:
+                        ret = ("const", core.op_const_val(rv["op"]))
+                    elif rv["k"] == "binop":
+                        ret = ("cmp", cmp.get(0))
+                    elif rv["k"] == "use":
+                        ret = ("cmp", cmp.get(core.op_local(rv["op"])))
+                    else:
+                        ret = ("?", None)
+            t = blk["term"]
+            if t["k"] == "return":
+                if ret is None or ret[0] == "?":
+                    bad.append("unrecognised return value")
+                elif ret[0] == "const" and ret[1] == 0:
+                    pass
+                else:
+                    have = set(known)
+                    if ret[0] == "cmp" and ret[1]:
+                        have.add(ret[1])
+                    if not {"H", "W"} <= have:
+                        bad.append("a path returns true knowing only %s" % sorted(have))
+                continue
+            if t["k"] == "switch":
+                l = core.op_local(t["discr"])
+                which = cmp.get(l)
+                for v, tg in t["targets"]:
+                    stack.append((tg, known, ret))  # value 0 = comparison false
+                if t.get("otherwise") is not None:
+                    stack.append((t["otherwise"], known | ({which} if which else set()), ret))
+                continue
+            for sx in P.succ[b]:
+                if not P.blocks[sx]["cleanup"]:
+                    stack.append((sx, known, ret))
+        return P, not bad, "; ".join(bad[:2]) or "true only if height <= TREE_HEIGHTS[level] and w >= WINTERNITZ_PARAMETERS[level]"
+
+    def r_GF_LIMITS(self):
+        D = self.decoder()
+        P, okp, why = self.limit_predicate()
+        if not okp:
+            return (False, "limit predicate %s is not a conjunction of both per-level comparisons: %s" % (P.path, why))
+        grows = [b for b, t in D.calls() if not D.blocks[b]["cleanup"] and core.strip_generics(core.callee_path(t) or "").rsplit("::", 1)[-1] in ("push", "extend_from_slice")
+                 and flow.origin(D, t["args"][0])[0] in ("local", "call")]
+        pcs = [(b, t) for b, t in D.calls() if self.F.call_targets(D, t) == [P.path] and not D.blocks[b]["cleanup"]]
+        if len(pcs) != 1 or not grows:
+            return (False, "decoder %s: limit predicate calls %d, growth sites %d" % (D.path, len(pcs), len(grows)))
+        pb, pt_ = pcs[0]
+        ex = expr.Expr(self.F, D)
+        a_level, a_h, a_w = [ex.of_operand(a) for a in pt_["args"]]
+        # predicate result tested; true edge dominates every growth; false edge -> Err only
+        sw = [c for c in flow.bool_checks(D, pt_["dest"]["local"], True, set())] if hasattr(flow, "bool_checks") else []
+        okdom = False
+        for b, t in D.iter_terms():
+            if t["k"] == "switch" and core.op_local(t["discr"]) == pt_["dest"]["local"]:
+                tru = t.get("otherwise")
+                fls = [tg for v, tg in t["targets"] if v == 0]
+                okdom = tru is not None and all(flow.edge_dominates(D, b, tru, g) for g in grows) and all(gf.error_only_from(D, x, grows) for x in fls)
+        # the tested height / winternitz are those of the parameter that is appended, the level is the loop index
+        pushed = None
+        for g in grows:
+            pushed = ex.of_operand(D.blocks[g]["term"]["args"][1])
+        okargs = (expr.has_call(a_h, "get_tree_height") or expr.has_field(a_h, "tree_height")) and (expr.has_call(a_w, "get_winternitz") or expr.has_field(a_w, "winternitz"))
+        news_h = [x for x in expr.walk(a_h) if x[0] == "call" and x[1].endswith("HssParameter::new")]
+        news_w = [x for x in expr.walk(a_w) if x[0] == "call" and x[1].endswith("HssParameter::new")]
+        news_p = [x for x in expr.walk(pushed) if x[0] == "call" and x[1].endswith("HssParameter::new")] if pushed else []
+        same = bool(news_h) and news_h[:1] == news_w[:1] == news_p[:1]
+        from .c03 import item_of
+        lvl_ok = item_of(a_level) is not None
+        return (okdom and okargs and same and lvl_ok,
+                "decoder %s: every appended parameter passed %s(level index, its height, its winternitz) on the only edge to the append (dominates: %s, args: %s, same parameter: %s, level is loop index: %s)"
+                % (D.path, P.path, okdom, okargs, same, lvl_ok))
+
+    def r_params_only_from_decoder(self):
+        D = self.decoder()
+        news = [f for f in self.F.fns.values() if f.j.get("name") == "new" and f.j.get("impl", {}).get("self_ty", {}).get("path", "").endswith("HssParameter")]
+        if len(news) != 1:
+            raise AnchorLost("HssParameter::new")
+        tree = self.F.reachable(self.A.entries_keygen() + self.A.entries_sign() + self.A.entries_lifetime())
+        callers = set()
+        for c, b, k in self.F.callers_of(news[0].path):
+            if c not in tree:
+                continue
+            g = self.F.fns[c]
+            t = g.blocks[b]["term"]
+            if all(a["k"] == "const" or const_variant(g, a) for a in t["args"]):
+                continue  # constant default parameter (fills unused vector slots; every used slot is written by the decoder)
+            callers.add(c)
+        callers = sorted(callers)
+        return (callers == [D.path], "HssParameter values below keygen / sign / lifetime are constructed only by the decoder: %s" % callers)
+
+    def push_loops_bounded_by(self, fkeys, names):
+        """In each function the (single) push site lies in a loop driven by `0..X` where X is the named parameter
+        quantity (getter call or field), possibly converted."""
+        out = []
+        for k in fkeys:
+            f = self.fn(k)
+            ex = expr.Expr(self.F, f)
+            pushes = [b for b, t in f.calls() if not f.blocks[b]["cleanup"] and core.strip_generics(core.callee_path(t) or "").endswith("ArrayVec::push")]
+            if len(pushes) != 1:
+                return (False, "%s: %d push sites" % (f.path, len(pushes)))
+            loops = [(h, body) for h, body in f.natural_loops() if pushes[0] in body]
+            if len(loops) != 1:
+                return (False, "%s: push site lies in %d loops" % (f.path, len(loops)))
+            h, body = loops[0]
+            ok = False
+            for b in body:
+                t = f.blocks[b]["term"]
+                if t["k"] == "call" and core.strip_generics(core.callee_path(t) or "").endswith("::next"):
+                    e = ex.of_operand(t["args"][0])
+                    rngs = [x for x in expr.walk(e) if x[0] == "adt" and "Range" in str(x[1])]
+                    for r in rngs:
+                        parts = [y for y in r[2:] if isinstance(y, tuple)]
+                        flat = list(expr.walk(r))
+                        start0 = any(y == ("const", 0) for y in flat)
+                        named = any((y[0] == "call" and y[1].rsplit("::", 1)[-1] in names) or (y[0] == "field" and y[2] in names) for y in flat)
+                        if start0 and named:
+                            ok = True
+            out.append(ok)
+            if not ok:
+                return (False, "%s: the pushing loop is not `0..%s`" % (f.path, "/".join(names)))
+        return (True, "pushing loops of %s run over 0..%s" % ([self.fn(k).path for k in fkeys], "/".join(names)))
+
+    def r_chain_loops_run_to_p(self):
+        return self.push_loops_bounded_by(["lm_ots::keygen::generate_private_key", "lm_ots::keygen::generate_public_key", "lm_ots::signing::LmotsSignature::calculate_signature"],
+                                          ("get_hash_chain_count", "hash_chain_count"))
+
+    def r_auth_path_loop_runs_to_height(self):
+        return self.push_loops_bounded_by(["lms::signing::LmsSignature::build_authentication_path"], ("get_tree_height", "tree_height"))
+
+    def r_T_LIMIT_HEIGHT(self):
+        L, th, wp = self.limit_tables()
+        mh = self.const("constants::MAX_TREE_HEIGHT")
+        return (max(th) <= mh, "max(TREE_HEIGHTS)=%d <= MAX_TREE_HEIGHT=%d (authentication path capacity)" % (max(th), mh))
+
+    def r_T_LIMIT_CHAINS(self):
+        L, th, wp = self.limit_tables()
+        cap = self.const("constants::MAX_NUM_WINTERNITZ_CHAINS")
+        worst = max(p for (n, ty, w, p, ls) in self.rows() if w >= min(wp))
+        return (worst <= cap, "largest chain count of any (hash, w >= %d) row = %d <= MAX_NUM_WINTERNITZ_CHAINS = %d" % (min(wp), worst, cap))
+
+    def r_T_LIMIT_SIGLEN(self):
+        """The HSS signature buffer holds the longest signature of any key within the per-level limits, and that
+        length is representable in the vector's u16 length field."""
+        L, th, wp = self.limit_tables()
+        cap = self.const("constants::MAX_HSS_SIGNATURE_LENGTH")
+        n = self.const("constants::MAX_HASH_SIZE")
+        rows = self.rows()
+
+        def pmax(wmin):
+            return max(p for (nn, ty, w, p, ls) in rows if w >= wmin and nn <= n)
+        pk = 4 + 4 + 16 + n
+        worst = 0
+        for l in range(1, L + 1):
+            tot = 4
+            for i in range(l):
+                lms_sig = 4 + (4 + n + n * pmax(wp[i])) + 4 + n * th[i]
+                tot += lms_sig + (pk if i < l - 1 else 0)
+            worst = max(worst, tot)
+        return (worst <= cap and worst <= ia.AV_MAX_LEN,
+                "longest HSS signature within the per-level limits = %d bytes; buffer capacity %d; ArrayVec length field holds %d" % (worst, cap, ia.AV_MAX_LEN))
+
     # ------------------------------------------------------------------ guard facts
     def r_GF_LEVEL(self):
         from . import c02
